@@ -3977,7 +3977,7 @@ static void DecodeFBits(Word Index) {
                     MModData | MModAdrI | MModDAdrI | MModAIX | MModAbs
                             | (Memo("BFTST") ? (MModPC | MModPCIdx) : 0),
                     &AdrResult)) {
-            WAsmCode[0] = 0xe8c0 | AdrResult.Mode | (Index << 10);
+            WAsmCode[0] = 0xe8c0 | AdrResult.Mode | (Index << 9);
             CopyAdrVals(WAsmCode + 2, &AdrResult);
             CodeLen = 4 + AdrResult.Cnt;
         }
